@@ -82,7 +82,7 @@ def analyse(sh, items):
         fam = 'MMX-SSE' if ('xmm' in sig or 'mm' in sig.split(',') or '#' in mname) else family(mn)
         if fam == 'MMX-SSE':
             sig = '*'
-            if '67' not in pc and 'seg' not in pc:
+            if '67' not in pc:
                 fam = 'MMX-SSE:' + mname        # one key per table row (a family-wide key would hide a newly broken row)
         if '67' in pc:
             fam, sig = ('addr16' if not fam.startswith('MMX-SSE') else fam), '*'
@@ -152,7 +152,7 @@ def run_shard(shard, tier, seed):
                 items.append((b, cls))
     else:
         modrms = (0x00, 0x05, 0x44, 0x84, 0xc1, 0xd8, 0xf9, 0x24)
-        pf = [b'\x67', b'\xf2', b'\xf3', b'\xf0', b'\x64', b'\x2e', b'\x66\x67', b'\x26', b'\x36', b'\x3e', b'\x65']
+        pf = [b'\x67', b'\xf2', b'\xf3', b'\xf0', b'\x64', b'\x2e', b'\x66\x67', b'\x26', b'\x36', b'\x3e', b'\x65', b'\x64\xf2', b'\x64\xf3', b'\x2e\x66', b'\x66\xf2']
         for cell in cl:
             for b, cls in x86space.strings_for_cell(cell, 'quick', seed, prefixes=pf, modrms=modrms, sibs=[0x24, 0x65], nfill=0):
                 items.append((b, cls))
